@@ -18,3 +18,14 @@ const (
 	cr = '\r'
 	lf = '\n'
 )
+
+const (
+	// maxBulkStringLength is the maximum length of a bulk string (proto-max-bulk-len of Redis).
+	maxBulkStringLength = 512 * 1024 * 1024
+	// maxArraySize is the maximum number of elements of an array.
+	maxArraySize = 1024 * 1024
+	// bulkStringBufferSize is the initial buffer size to read a bulk string.
+	bulkStringBufferSize = 64 * 1024
+	// arrayBufferSize is the initial capacity to read an array.
+	arrayBufferSize = 1024
+)
